@@ -13,7 +13,8 @@ def check(ctx):
     ctx.sub(s1_s2_s3_execute)
     ctx.sub(s2_handler)
     ctx.sub(s4_fee_models)
-    from . import c01
+    from . import c01, c08
+    ctx.sub(c08.funding)            # 'the configured fee model': a backtest session hands its fee model to the broker it builds
     ctx.sub(c01.s2_deltas)          # what the portfolio is debited is price x quantity plus that commission, unmodified (never negated for a sell)
 
 
